@@ -39,6 +39,42 @@ macro_rules! arith { ($t:ty, $op:expr, $x:expr, $y:expr) => { { let a: $t = $x.p
         _ => "?".to_string() } } } }
 macro_rules! contains { ($t:ty, $lo:expr, $hi:expr, $x:expr) => { { let lo: $t = $lo.parse().unwrap(); let hi: $t = $hi.parse().unwrap(); let x: $t = $x.parse().unwrap();
     (lo..=hi).contains(&x).to_string() } } }
+fn opt(o: Option<String>) -> String { match o { Some(s) => format!("S{}", s), None => "N".to_string() } }
+fn run_iter<I: Iterator<Item = usize> + DoubleEndedIterator + ExactSizeIterator>(mut it: I, toks: &[&str]) -> String {
+    let show = |x: usize| x.to_string();
+    let mut out: Vec<String> = Vec::new();
+    let mut i = 0;
+    while i < toks.len() && toks[i] != ";" {
+        let t = toks[i];
+        let r = match t.as_bytes()[0] {
+            b'n' => opt(it.next().map(show)),
+            b'b' => opt(it.next_back().map(show)),
+            b'l' => format!("L{}", it.len()),
+            b'h' => { let (lo, hi) = it.size_hint(); match hi { Some(h) => format!("H{},{}", lo, h), None => format!("H{},-", lo) } }
+            b't' => opt(it.nth(t[1..].parse::<usize>().unwrap()).map(show)),
+            b'u' => opt(it.nth_back(t[1..].parse::<usize>().unwrap()).map(show)),
+            _ => "?".to_string(),
+        };
+        out.push(r);
+        i += 1;
+    }
+    if i + 1 < toks.len() {
+        let list = |v: Vec<usize>| format!("[{}]", v.into_iter().map(show).collect::<Vec<_>>().join(","));
+        let r = match toks[i + 1] {
+            "fold" => list(it.fold(Vec::new(), |mut a, x| { a.push(x); a })),
+            "rfold" => list(it.rfold(Vec::new(), |mut a, x| { a.push(x); a })),
+            "last" => opt(it.last().map(show)),
+            "count" => format!("C{}", it.count()),
+            "collect" => list(it.collect::<Vec<_>>()),
+            "rev" => list(it.rev().collect::<Vec<_>>()),
+            "min" => opt(it.min().map(show)),
+            "max" => opt(it.max().map(show)),
+            _ => "?".to_string(),
+        };
+        out.push(r);
+    }
+    out.join(" ")
+}
 fn main() {
     std::panic::set_hook(Box::new(|_| {}));
     let text = std::fs::read_to_string(std::env::args().nth(1).unwrap()).unwrap();
@@ -52,6 +88,13 @@ fn main() {
             "slice" => { let n: usize = t[3].parse().unwrap(); let lo: usize = t[4].parse().unwrap(); let hi: usize = t[5].parse().unwrap();
                 let v: Vec<usize> = (0..n).collect();
                 match catch_unwind(move || v[lo..hi].to_vec()) { Ok(s) => format!("{:?}", s), Err(_) => "PANIC".to_string() } }
+            "iter" => { let n: usize = t[3].parse().unwrap();
+                // the three kinds of std iterator the generated structs wrap
+                let a = run_iter((0..n).collect::<Vec<usize>>().into_iter(), &t[4..]);
+                let v: Vec<usize> = (0..n).collect();
+                let b = run_iter(v.iter().copied(), &t[4..]);
+                let c = if n == 0 { a.clone() } else { run_iter((0u16..=(n as u16 - 1)).map(|x| x as usize), &t[4..]) };
+                if a == b && a == c { a } else { format!("STD-ITERATORS-DISAGREE {} | {} | {}", a, b, c) } }
             "index" => { let n: usize = t[3].parse().unwrap(); let i: usize = t[4].parse().unwrap(); let v: Vec<usize> = (0..n).collect();
                 match catch_unwind(move || v[i]) { Ok(s) => s.to_string(), Err(_) => "PANIC".to_string() } }
             _ => "?".to_string(),
@@ -91,6 +134,16 @@ def gen_ops():
                 add("slice", n, lo, hi)
         for i in range(0, 5):
             add("index", n, i)
+    # the specification's iterator (`Cursor`) against std's own iterators: every script of up to three operations followed by
+    # every consuming operation, on lists of 0, 1 and 3 items
+    steps = ["n", "b", "l", "t0", "t1", "t4", "u0", "u1", "u4"]
+    fins = ["fold", "rfold", "last", "count", "collect", "rev", "min", "max"]
+    import itertools
+    for n in (0, 1, 3):
+        for k in range(0, 4):
+            for sc in itertools.product(steps, repeat=k):
+                for fin in (fins if k < 3 else fins[:3]):
+                    add("iter", n, *sc, ";", fin)
     return L
 
 
